@@ -743,7 +743,7 @@ func search(c *enum.Ctx, base kase, depth int, states, trans, traces *atomic.Int
 }
 
 func run(c *enum.Ctx) {
-	c.Rule("initial grids: alignment.Seq/QSeq 1..3 rows x 1..3 columns, multi.Multi (plain and quality rows) with every layout of 1..3 rows (quick: three-row layouts only with edit sequences of length <= 2; offsets 0..2, lengths 1..3; plus five layouts with rows that hold no letters yet) over letters {a,c,g,-} with distinct qualities; breadth-first search over edit sequences of depth <=3 (thorough 4) over {AppendColumns 1/2 columns, AppendEach with two unequal run shapes, Delete first/last, Add a linear sequence, Flush start/end/both, Truncate (covered range, and one shorter), Subseq, Clone-and-continue, Clone-and-keep, Set}; caller buffers are overwritten after every append; after each edit Row(i).At(p), Column(p,true/false), ColumnQL(p,true), Rows/Len/Start/End, row names and the count consensus of uniform columns are compared with a plain grid model, and every retained clone/original must be unchanged; the size ladder: grids with 2^k-1, 2^k, 2^k+1 columns (3..257, thorough 1025) and appends of that many columns / runs of that many, half that many and no letters, under nine fixed edit lists; states merged on the model grid (first two levels unmerged)")
+	c.Rule("initial grids: alignment.Seq/QSeq 1..3 rows x 1..3 columns, multi.Multi (plain and quality rows) with every layout of 1..3 rows (quick: three-row layouts only with edit sequences of length <= 2; offsets 0..2, lengths 1..3; plus five layouts with rows that hold no letters yet) over letters {a,c,g,-} with distinct qualities; breadth-first search over edit sequences of depth <=3 (thorough 4) over {AppendColumns 1/2 columns, AppendEach with two unequal run shapes, Delete first/last, Add a linear sequence, Flush start/end/both, Truncate (covered range, and one shorter), Subseq, Clone-and-continue, Clone-and-keep, Set}; caller buffers are overwritten after every append; after each edit Row(i).At(p), Column(p,true/false), ColumnQL(p,true), Rows/Len/Start/End, row names and the count consensus of uniform columns are compared with a plain grid model, and every retained clone/original must be unchanged; the size ladder: grids with 2^k-1, 2^k, 2^k+1 (also 3*2^k, 10^j-1, 10^j, 10^j+1, 5*10^j) columns (3..257, thorough 1025) and appends of that many columns / runs of that many, half that many and no letters, under nine fixed edit lists; states merged on the model grid (first two levels unmerged)")
 	c.Assume("column-stored alignments at offset 0; alignment.QSeq.Column compared only where the quality is at least the container's threshold", "fill letter for uncovered rows is the alphabet's gap with quality 0")
 	depth := 3
 	maxRows := 2
@@ -815,7 +815,7 @@ func run(c *enum.Ctx) {
 			jobs = append(jobs, job{kase{Kind: kind, Rows: l}, d})
 		}
 	}
-	// the size ladder: grids of 2 and 3 rows with 2^k-1, 2^k, 2^k+1 columns (3..257, thorough 1025), and
+	// the size ladder: grids of 2 and 3 rows with 2^k-1, 2^k, 2^k+1 (also 3*2^k, 10^j-1, 10^j, 10^j+1, 5*10^j) columns (3..257, thorough 1025), and
 	// appends of that many columns / runs of that many letters, under a handful of fixed edit lists
 	topN := 257
 	if !c.Quick {
